@@ -38,10 +38,14 @@ func (u *UseCase) UpdateTx(ctx context.Context, oldTxId, newTxId string, filter 
 		freeNodes = make([]*core.Node[model.File], 0, tx.Len())
 	)
 	defer func() {
+		// The links are nodes of the all-store lists: unlink them under its lock.
+		u.allStore.Lock()
 		for _, n := range freeNodes {
 			link := n.DeleteLink()
 			u.nodePool.Release(link, n)
 		}
+		u.allStore.Unlock()
+
 		deleteFiles = append(deleteFiles, files...)
 	}()
 
